@@ -84,6 +84,11 @@ def is_live_of(interp, p):
 
 
 @spec
+def unfold_at(interp, depth, p):
+    return z3.And(*unfold(depth, p))
+
+
+@spec
 def visited(interp, it, p):
     return it.attrs["_g_visited"].has(p)
 
@@ -107,6 +112,9 @@ class RichIterPlugin(object):
             kp = NTuple("Pos", ("n", "x", "y"), k)
             facts.append(z3.Implies(InIter(*k), it.attrs["_g_visited"].has(kp)))     # children first
             comps = []
+            if dflt is None:
+                data.append(None)
+                continue
             for c, d in enumerate(dflt if isinstance(dflt, tuple) else (dflt,)):
                 arr = it.attrs["_g_val"][c]
                 stored = SymMap.sel(arr, k)
@@ -145,8 +153,9 @@ def rich_iter(default, depth, apex):
     it.attrs["_g_depth"] = depth
     it.attrs["_g_apex"] = apex
     it.attrs["_g_visited"] = SymSet("visited")
-    it.attrs["_g_val"] = [fresh_bool_cube("val%d" % c) if isinstance(d, bool) else fresh_int_cube("val%d" % c)
-                          for c, d in enumerate(default if isinstance(default, tuple) else (default,))]
+    it.attrs["_g_val"] = [] if default is None else [
+        fresh_bool_cube("val%d" % c) if isinstance(d, bool) else fresh_int_cube("val%d" % c)
+        for c, d in enumerate(default if isinstance(default, tuple) else (default,))]
     return it
 
 
@@ -176,6 +185,8 @@ def install_externals(X):
             return old_res(interp, obj, args, kwargs)
         apex = obj.attrs["_g_apex"]
         dflt = obj.attrs["_g_default"]
+        if dflt is None:
+            return None
         seen = obj.attrs["_g_visited"].has(apex)
         out = []
         for arr, d in zip(obj.attrs["_g_val"], dflt if isinstance(dflt, tuple) else (dflt,)):
@@ -261,3 +272,104 @@ def _(L):
     Ip = z3.If(leaf, z3.BoolVal(True), anyl)
     Op = z3.If(leaf, 0, z3.If(anyl, so + 1, so))
     L.prove("step", z3.Implies(hyp, z3.And(Op + Lp == Vp, Ip == (Lp > 0), Lp >= 0, Op >= 0, Vp >= 0, z3.Or(Ip, Op == 0))))
+
+
+# ---------------------------------------------------------------------------
+# serial walk against the protocol: callback exactly for the live non-leaf tiles (C01)
+
+def walk_serial_trace2(m, path, fr, env, outcome, value, exc):
+    ev = path.events
+    for si in [i for i, e in enumerate(ev) if e[0] == "loop_iter" and e[1] == 0]:
+        seg = ev[si + 1:]
+        if not any(e[0] == "loop_iter_end" and e[1] == 0 for e in seg):
+            continue
+        pos, tile, is_leaf, data = fr.last_loop_item[0]
+        want_cb = z3.And(z3.Not(is_leaf), IsLive(*_p(pos)))
+        st = [e for e in seg if e[0] == "cb_start"]
+        dn = [e for e in seg if e[0] == "cb_done"]
+        if not st:
+            path.oblige(m.oblname("serial/every_live_parent_is_processed"), z3.Not(want_cb), kind="trace", assume_after=False, drop=("qfact",))
+        else:
+            ok = len(st) == 1 and len(dn) == 1 and len(st[0][2]) == 1 and _par._same(st[0][2][0], pos)
+            path.oblige(m.oblname("serial/callback_once_with_the_tile"), z3.BoolVal(bool(ok)), kind="trace", assume_after=False)
+            path.oblige(m.oblname("serial/only_live_parents_are_processed"), want_cb, kind="trace", assume_after=False, drop=("qfact",))
+
+
+_ws = contract("toasty.pyramid.Pyramid._walk_serial")
+
+
+@_ws
+def _(c):
+    c.path_hooks_[:] = []          # replaces the weaker trace clause of contracts/parallel.py
+    inv = ALLQ % ("implies(visited(riter, {Q}), in_iter({Q}) and val(riter, {Q}) == is_live_of({Q}))".format(Q=Q))
+    c.loop(0, invariant=[("values_set_so_far_are_the_liveness_of_their_tiles", inv)], havoc=["riter"],
+           hints=["pos", "child(pos, 0)", "child(pos, 1)", "child(pos, 2)", "child(pos, 3)"])
+    c.on_path(walk_serial_trace2)
+
+
+# ---------------------------------------------------------------------------
+# the preparation pass of _walk_parallel against the protocol: it ESTABLISHES the dispatcher's entry state
+# (replaces the assumed loop summary of contracts/walk.py)
+
+from . import walk as _walk  # noqa: E402
+from .walk import was_put, was_got, rget, rhas, rval, bit  # noqa: E402,F401
+
+
+@spec
+def live(interp, p):     # noqa: F811  -- "live" of the dispatcher invariant, now DEFINED: delivered by the iterator and has a reachable leaf
+    n, x, y = _p(p)
+    return z3.And(InIter(n, x, y), IsLive(n, x, y))
+
+
+def _walk_done_rely2(interp, q, item):
+    """completion report received by the dispatcher (worker guarantee + queue contract) and the ground instances of
+    the liveness definition / iterator protocol for this tile and its parent"""
+    env = interp.frame.env
+    rq = env.lookup("ready_queue")
+    self_ = env.lookup("self")
+    A, D = self_.fields["_apex"], self_.fields["depth"]
+    n, x, y = _p(item)
+    facts = [rq.attrs["_g_put"].has(item), z3.Not(q.attrs["_g_got"].has(item))]
+    par = NTuple("Pos", ("n", "x", "y"), [n - 1, x / 2, y / 2])
+    not_apex = z3.Not(z3.And(n == z3num(A.get("n")), x == z3num(A.get("x")), y == z3num(A.get("y"))))
+    from .specfuns import Desc
+    # protocol: delivered positions are in scope; the generator descends only through delivered positions
+    facts.append(z3.Implies(InIter(n, x, y), z3.And(Desc(n, x, y, *_p(A)), n <= z3num(D))))
+    facts.append(z3.Implies(z3.And(InIter(n, x, y), not_apex), z3.And(InIter(*_p(par)), Desc(*_p(par), *_p(A)))))
+    facts.extend(unfold(D, item))
+    facts.extend(unfold(D, par))
+    return z3.And(*facts)
+
+
+register_type("walk_done_queue", lambda interp, name: __import__("pyvc.mpmodel", fromlist=["new_queue"]).new_queue(name, item_type="Pos", rely=_walk_done_rely2))
+
+PREP_VAL = ALLQ % ("implies(visited(riter, {Q}), in_iter({Q}) and val(riter, {Q}, 0) == is_live_of({Q}) and val(riter, {Q}, 1) == ops_of({Q}))".format(Q=Q))
+PREP_NOTVIS = ALLQ % ("implies(not visited(riter, {Q}), not rhas(readiness, {Q}) and not was_put(ready_queue, {Q}))".format(Q=Q))
+PREP_BITS = ALLQ % ("implies(visited(riter, {Q}) and n < self.depth, all_k(0, 4, lambda i: bit(rget(readiness, {Q}), i) == "
+                    "(not live(child({Q}, i)))))".format(Q=Q))
+PREP_SEED = ALLQ % ("implies(visited(riter, {Q}), was_put(ready_queue, {Q}) == (live({Q}) and n == self.depth - 1))".format(Q=Q))
+PREP_NODONE = ALLQ % ("not was_got(done_queue, {Q})".format(Q=Q))
+PREP_RANGE = _walk.I5
+
+
+class ExhaustAll(object):
+    """exhaustion fact for the preparation pass: every position of InIter was delivered (quantified; instantiated
+    at the skolems of the goals like the other remembered facts)"""
+
+
+_wp = contract("toasty.pyramid.Pyramid._walk_parallel")
+
+
+@_wp
+def _(c):
+    c.loop(0, invariant=[("values_are_liveness_and_operation_counts", PREP_VAL),
+                         ("nothing_recorded_for_tiles_not_yet_delivered", PREP_NOTVIS),
+                         ("pre_readied_bits_are_the_dead_children", PREP_BITS),
+                         ("seeded_exactly_the_live_tiles_above_the_leaves", PREP_SEED),
+                         ("no_report_yet", PREP_NODONE),
+                         ("table_values_are_4_bit", PREP_RANGE)],
+           havoc=["riter", "readiness", "ready_queue", "done_queue"],
+           hints=["pos", "child(pos, 0)", "child(pos, 1)", "child(pos, 2)", "child(pos, 3)"],
+           sk_hints=["child(Pos(n, x, y), 0)", "child(Pos(n, x, y), 1)", "child(Pos(n, x, y), 2)", "child(Pos(n, x, y), 3)"],
+           exit_assume=[("every_position_of_the_iteration_was_delivered", ALLQ % ("implies(in_iter({Q}), visited(riter, {Q}))".format(Q=Q))),
+                        ("unfold", ALLQ % ("unfold_at(self.depth, {Q})".format(Q=Q)))])
